@@ -32,6 +32,7 @@ type scriptDev struct {
 	untouched    bool // the device reports success but writes nothing back (OutLen, Status, Data stay as sent)
 	errWrites    bool // a failing quote request has nevertheless filled the buffer (status 0, valid OutLen) before failing
 	sawOutLen    []uint32
+	setLength    *uint64 // the device rewrites the request's Length field (the request is handed over by pointer)
 	tdReport     [labi.TdReportSize]byte
 	data         []byte // what the device writes into the buffer (len <= ReqBufSize)
 
@@ -72,6 +73,9 @@ func (d *scriptDev) Ioctl(command uintptr, arg any) (uintptr, error) {
 		d.sawInLen = append(d.sawInLen, hdr.InLen)
 		d.sawLength = append(d.sawLength, req.Length)
 		d.sawOutLen = append(d.sawOutLen, hdr.OutLen)
+		if d.setLength != nil {
+			req.Length = *d.setLength
+		}
 		if d.quoteErr != nil {
 			if d.errWrites {
 				copy(hdr.Data[:], d.data)
@@ -103,13 +107,45 @@ type c15Cell struct {
 	rRes, qRes uintptr
 	status     uint64
 	outLen     uint32
+	lenWrite   int // what the device leaves in the request's Length field: 0 = what it found, 1.. = c15LenWrites
+	zeroTail   int // with an embedded valid quote of exact length: the quote is followed by extra bytes, the last zeroTail of them 0x00
+}
+
+// c15LenWrites are values a device may leave in the Length field of the request (it is an input to the device: what
+// the device does with it has no bearing on which bytes of the buffer are the quote).
+func c15LenWrite(k int, outLen uint32) *uint64 {
+	var v uint64
+	switch k {
+	case 0:
+		return nil
+	case 1:
+		v = 0
+	case 2:
+		v = uint64(outLen) - 1
+	case 3:
+		v = labi.ReqBufSize + 1000
+	case 4:
+		v = 1<<64 - 1
+	case 5:
+		v = 4
+	default:
+		v = uint64(outLen)
+	}
+	return &v
 }
 
 func (c c15Cell) String() string {
 	if c.untouched {
 		return fmt.Sprintf("reportErr=%v reportResult=%d quoteErr=%v quoteResult=%d device-writes-nothing-back", c.rErr, c.rRes, c.qErr, c.qRes)
 	}
-	return fmt.Sprintf("reportErr=%v reportResult=%d quoteErr=%v quoteResult=%d status=%#x outLen=%d", c.rErr, c.rRes, c.qErr, c.qRes, c.status, c.outLen)
+	extra := ""
+	if c.lenWrite != 0 {
+		extra += fmt.Sprintf(" device-rewrites-Length(kind %d)", c.lenWrite)
+	}
+	if c.zeroTail != 0 {
+		extra += fmt.Sprintf(" quote-followed-by-extra-bytes-ending-in-%d-zero-bytes", c.zeroTail)
+	}
+	return fmt.Sprintf("reportErr=%v reportResult=%d quoteErr=%v quoteResult=%d status=%#x outLen=%d%s", c.rErr, c.rRes, c.qErr, c.qRes, c.status, c.outLen, extra)
 }
 
 // c15Key gives a stable identity to the cell's class (not its random contents).
@@ -153,13 +189,21 @@ func c15RunCell(c c15Cell, s *gen.Stream, validQuote bool) (key, oracle, detail 
 	s.Fill(d.tdReport[:])
 	d.data = s.Bytes(labi.ReqBufSize)
 	if validQuote {
-		q := gen.RandomRefQuote(s, 16, 100, 0).Encode()
+		rq := gen.RandomRefQuote(s, 16, 100, 0)
+		if c.zeroTail > 0 {
+			rq.Extra = append(s.Bytes(s.Intn(6)), make([]byte, c.zeroTail)...)
+			if s.Intn(3) == 0 {
+				rq.Extra = make([]byte, c.zeroTail) // nothing but zero bytes
+			}
+		}
+		q := rq.Encode()
 		copy(d.data, q)
 		if c.outLen == 0xAAAA { // marker: exact length of the embedded quote
 			d.outLen = uint32(len(q))
 			c.outLen = d.outLen
 		}
 	}
+	d.setLength = c15LenWrite(c.lenWrite, c.outLen)
 	var rd [64]byte
 	s.Fill(rd[:])
 	gen.Eval()
@@ -326,6 +370,7 @@ func TestC15(t *testing.T) {
 			for i, c := range cells {
 				valid := (i+rep)%2 == 0
 				c.errKind, c.errWrites = (i/2+rep)%len(c15Errors), (i/3+rep)%2 == 0
+				c.lenWrite, c.zeroTail = (i/5+rep)%7, []int{0, 1, 3, 0, 17}[(i/9+rep)%5]
 				key, oracle, detail := c15RunCell(c, s, valid)
 				nontrivial := c.rErr || c.qErr || c.rRes != 0 || c.qRes != 0 || c.status != 0 || c.outLen <= 1 || c.outLen >= labi.ReqBufSize
 				if nontrivial {
@@ -337,7 +382,7 @@ func TestC15(t *testing.T) {
 				}
 				if key != "" {
 					gen.Fail(t, gen.Violation{Key: key, Oracle: oracle, Detail: c.String() + ": " + detail,
-						Replay: map[string]any{"kind": "device", "r_err": c.rErr, "q_err": c.qErr, "r_res": uint64(c.rRes), "q_res": uint64(c.qRes), "status": fmt.Sprint(c.status), "out_len": c.outLen, "valid": valid, "untouched": c.untouched, "err_kind": c.errKind, "err_writes": c.errWrites}})
+						Replay: map[string]any{"kind": "device", "r_err": c.rErr, "q_err": c.qErr, "r_res": uint64(c.rRes), "q_res": uint64(c.qRes), "status": fmt.Sprint(c.status), "out_len": c.outLen, "valid": valid, "untouched": c.untouched, "err_kind": c.errKind, "err_writes": c.errWrites, "len_write": c.lenWrite, "zero_tail": c.zeroTail}})
 				}
 			}
 		}
@@ -353,10 +398,15 @@ func TestC15(t *testing.T) {
 			outLen:    rapid.OneOf(rapid.Uint32Range(0, labi.ReqBufSize+2), rapid.Uint32()).Draw(t, "outLen"),
 			untouched: rapid.IntRange(0, 7).Draw(t, "untouched") == 0,
 			errKind:   rapid.IntRange(0, len(c15Errors)-1).Draw(t, "errKind"), errWrites: rapid.Bool().Draw(t, "errWrites"),
+			lenWrite: rapid.SampledFrom([]int{0, 0, 1, 2, 3, 4, 5, 6}).Draw(t, "lengthFieldRewritten"),
 		}
-		if key, oracle, detail := c15RunCell(c, s, rapid.Bool().Draw(t, "valid")); key != "" {
+		valid := rapid.Bool().Draw(t, "valid")
+		if valid && rapid.Bool().Draw(t, "exactLength") {
+			c.outLen, c.zeroTail = 0xAAAA, rapid.SampledFrom([]int{0, 1, 2, 8}).Draw(t, "zeroTail")
+		}
+		if key, oracle, detail := c15RunCell(c, s, valid); key != "" {
 			gen.Fail(t, gen.Violation{Key: key, Oracle: oracle, Detail: c.String() + ": " + detail,
-				Replay: map[string]any{"kind": "device", "r_err": c.rErr, "q_err": c.qErr, "r_res": uint64(c.rRes), "q_res": uint64(c.qRes), "status": fmt.Sprint(c.status), "out_len": c.outLen, "valid": false, "err_kind": c.errKind, "err_writes": c.errWrites}})
+				Replay: map[string]any{"kind": "device", "r_err": c.rErr, "q_err": c.qErr, "r_res": uint64(c.rRes), "q_res": uint64(c.qRes), "status": fmt.Sprint(c.status), "out_len": c.outLen, "valid": valid, "err_kind": c.errKind, "err_writes": c.errWrites, "len_write": c.lenWrite, "zero_tail": c.zeroTail}})
 		}
 		gen.NonTrivial("rand", c.String())
 	})
@@ -373,7 +423,16 @@ func TestC15(t *testing.T) {
 		case 2:
 			p.bytes = s.Bytes(rapid.OneOf(rapid.IntRange(1, 3000), rapid.SampledFrom([]int{labi.ReqBufSize - 1, labi.ReqBufSize, labi.ReqBufSize + 1, 20000, 70000})).Draw(t, "n"))
 		case 3:
-			p.bytes = gen.RandomRefQuote(s, 4, 50, 0).Encode()
+			rq := gen.RandomRefQuote(s, 4, 50, 0)
+			switch rapid.IntRange(0, 3).Draw(t, "tail") {
+			case 1:
+				rq.Extra = append(s.Bytes(5), 0) // extra bytes whose last one is zero
+			case 2:
+				rq.Extra = make([]byte, 1+s.Intn(40)) // nothing but zero bytes
+			case 3:
+				rq.Extra = s.Bytes(1 + s.Intn(9))
+			}
+			p.bytes = rq.Encode()
 		}
 		if rapid.Bool().Draw(t, "err") {
 			p.err = errors.New("scripted provider failure")
@@ -520,6 +579,12 @@ func init() {
 			cell.errKind = int(ek)
 		}
 		cell.errWrites = c["err_writes"] == true
+		if lw, ok := c["len_write"].(float64); ok {
+			cell.lenWrite = int(lw)
+		}
+		if zt, ok := c["zero_tail"].(float64); ok {
+			cell.zeroTail = int(zt)
+		}
 		if key, oracle, detail := c15RunCell(cell, gen.NewStream(1, "replay"), c["valid"] == true); key != "" {
 			return key + " (" + oracle + "): " + detail
 		}
